@@ -148,14 +148,20 @@ def rebind (r : HookRebind) (h : Heap) (self y target : Nat) : Heap :=
   | .removed => setHook (setHook h self none) y none
   | .toOriginal => setHook (setHook h self (some target)) y (some target)
 
+/-- the `copy.deepcopy(self, memo)` inside a hook (the hook itself is shadowed): memo lookup, else
+    `_reconstruct`; before it, the class hook seeds the memo -/
+def hookInner (cfg : Cfg) (rec : St → Nat → Option (St × Nat)) (st : St) (self : Nat) (o : Obj) :
+    Option (St × Nat) :=
+  match mget (seed cfg st o).memo self with
+  | some y => some (seed cfg st o, y)
+  | none => reconstruct rec (seed cfg st o) self o
+
 /-- `Class.__deepcopy__(self, memo)` / `ClassModificationArgument.__deepcopy__(self, memo)` -/
 def viaHook (cfg : Cfg) (rec : St → Nat → Option (St × Nat)) (st : St) (self : Nat) : Option (St × Nat) :=
   match st.heap[self]? with
   | none => none
   | some o =>
-    match (match mget (seed cfg st o).memo self with
-      | some y => some (seed cfg st o, y)
-      | none => reconstruct rec (seed cfg st o) self o) with
+    match hookInner cfg rec st self o with
     | none => none
     | some (st1, y) =>
       some ({ st1 with heap := rebind (if o.kind = .cls then cfg.hookRebind else cfg.argRebind) st1.heap self y
@@ -266,15 +272,18 @@ def rewrite (junk : Nat → Obj → Obj) : Heap → List Nat → Heap
 
 /-- what `tree.flatten` obtains: the requested class, the classes and symbols it looks up -/
 def obtain (cfg : Cfg) (h : Heap) (root : Nat) (r : Req) : Option (Heap × List Nat) :=
-  match findClass cfg h root r.path cfg.rootCopy with
+  match lookupPath h root r.path with
   | none => none
-  | some (h1, c) =>
-    match lookupAll cfg cfg.innerCopy h1 r.inner with
+  | some c =>
+    match lookupAll cfg cfg.rootCopy h [c] with
     | none => none
-    | some (h2, is) =>
-      match lookupAll cfg cfg.constCopy h2 r.consts with
+    | some (h1, cs) =>
+      match lookupAll cfg cfg.innerCopy h1 r.inner with
       | none => none
-      | some (h3, ks) => some (h3, c :: (is ++ ks))
+      | some (h2, is) =>
+        match lookupAll cfg cfg.constCopy h2 r.consts with
+        | none => none
+        | some (h3, ks) => some (h3, cs ++ (is ++ ks))
 
 /-- `tree.flatten` as far as the input tree is concerned: obtain, then write anything (`junk`)
     to every object reachable from what was obtained. -/
@@ -298,9 +307,78 @@ def view (h : Heap) : Nat → Nat → View
     | none => .cut
     | some o => .node o.kind o.name o.label (o.fields.map fun f => (f.tag, view h k f.id))
 
+/-- what a request reads: the views (to depth `k`) of everything it obtained, before it writes -/
+def flattenResult (cfg : Cfg) (k : Nat) (h : Heap) (root : Nat) (r : Req) : Option (List View) :=
+  match obtain cfg h root r with
+  | none => none
+  | some (h3, got) => some (got.map (view h3 k))
+
+/-- a history of requests on one tree: every request is answered from the heap the earlier ones
+    left behind (a request that fails leaves the heap as it was) -/
+def runSeq (cfg : Cfg) (k : Nat) (root : Nat) : Heap → List (Req × (Nat → Obj → Obj)) → List (Option (List View))
+  | _, [] => []
+  | h, (r, junk) :: rest =>
+    flattenResult cfg k h root r ::
+      (match flattenImpl cfg junk h root r with
+       | some h' => runSeq cfg k root h' rest
+       | none => runSeq cfg k root h rest)
+
+/-! ## edits through the AST API -/
+
+/-- an edit: new objects are allocated, then some objects are overwritten -/
+structure Edit where
+  allocs : List Obj
+  writes : List (Nat × Obj)
+
+def applyWrites : Heap → List (Nat × Obj) → Heap
+  | h, [] => h
+  | h, (i, o) :: r => applyWrites (h.set i o) r
+
+def applyEdit (h : Heap) (e : Edit) : Heap := applyWrites (h ++ e.allocs) e.writes
+
+/-- labels in preorder: a decidable fingerprint of a view (used by the counterexamples) -/
+def viewLabels (h : Heap) : Nat → Nat → List String
+  | 0, _ => ["…"]
+  | k + 1, x =>
+    match h[x]? with
+    | none => ["⊥"]
+    | some o => o.label :: (o.fields.map fun f => viewLabels h k f.id).flatten
+
 /-- ids of old objects (`< n`) that differ between two heaps -/
 def writtenOld (h h' : Heap) : List Nat :=
   (List.range h.length).filter fun i => h[i]? != h'[i]?
+
+/-! ## executable checks of the hypotheses the theorems make about a heap -/
+
+def allIdx (H : Heap) (p : Nat → Obj → Bool) : Bool :=
+  (List.range H.length).all fun i => match H[i]? with | some o => p i o | none => true
+
+/-- references valid, no per-instance hooks, `par` only in classes and unique -/
+def wfCheck (H : Heap) : Bool :=
+  allIdx H fun _ o =>
+    o.hook.isNone && o.fields.all (fun f => decide (f.id < H.length)) &&
+      o.fields.all (fun f => match f with
+        | .par i => decide (o.kind = .cls) && decide (parentOfFields o.fields = some i)
+        | _ => true)
+
+/-- every `own` reference to a class comes from its parent -/
+def treeCheck (H : Heap) : Bool :=
+  allIdx H fun a oa => oa.fields.all fun f => match f with
+    | .own c => (match H[c]? with
+      | some oc => !(decide (oc.kind = .cls)) || decide (parentOfFields oc.fields = some a)
+      | none => true)
+    | _ => true
+
+/-- `d` is a depth function: `own` references go down, `par` references go up -/
+def rankCheck (H : Heap) (d : List Nat) : Bool :=
+  allIdx H fun a oa => oa.fields.all fun f => match f with
+    | .own c => decide (d.getD a 0 < d.getD c 0)
+    | .par p => decide (d.getD p 0 < d.getD a 0)
+    | .scp _ => true
+
+/-- no `scope` references (a tree as the parser leaves it) -/
+def noScopeCheck (H : Heap) : Bool :=
+  allIdx H fun _ o => o.fields.all fun f => match f with | .scp _ => false | _ => true
 
 /-! ## canonical shape of the new objects below a result (for the correspondence) -/
 
